@@ -49,13 +49,13 @@ impl WorldRef { #[verifier::external_body] pub fn vx_world(&self) -> (r: &World)
 pub trait BatchController: Sized {
     type BatchSystemData: SystemData;
     spec fn ctl_time(&self) -> RunningTime;
-    spec fn ctl_runs(&self) -> nat;
+    spec fn ctl_ran(&self, pre: &Self, k: nat) -> bool;
     spec fn ctl_gid(&self) -> int;
     // assumed of every controller: it only dispatches the inner dispatcher (identities of the systems inside are kept)
     fn run(&mut self, world: &World, dispatcher: &mut Dispatcher)
         ensures final(self).ctl_gid() == old(self).ctl_gid(), final(self).ctl_time() == old(self).ctl_time(),
 //@if once|tl
-            final(self).ctl_runs() == old(self).ctl_runs() + 1,
+            final(self).ctl_ran(old(self), 1),
 //@endif
 //@if hooks
             final(dispatcher).same(old(dispatcher)),
@@ -65,11 +65,11 @@ pub trait BatchController: Sized {
 }
 pub trait MultiDispatchController: Sized {
     type SystemData: SystemData;
-    spec fn mdc_runs(&self) -> nat;
+    spec fn mdc_ran(&self, pre: &Self, k: nat) -> bool;
     spec fn mdc_gid(&self) -> int;
     spec fn mdc_plan(&self, data: Self::SystemData) -> usize;
     fn plan(&mut self, data: Self::SystemData) -> (n: usize)
-        ensures n == old(self).mdc_plan(data), final(self).mdc_runs() == old(self).mdc_runs() + 1, final(self).mdc_gid() == old(self).mdc_gid();
+        ensures n == old(self).mdc_plan(data), final(self).mdc_ran(old(self), 1), final(self).mdc_gid() == old(self).mdc_gid();
 }
 
 // thread_pool.write().unwrap().get_or_insert_with(Self::create_thread_pool): fills the shared slot (environment; listed)
